@@ -67,3 +67,46 @@ package meta
 //@   ensures bootstrap_needs_create_admin: nousers && result1 == nil ==> len(q.Statements) >= 1 && typeis(q.Statements[0], "*influxql.CreateUserStatement")
 //@   ensures needs_user: !nousers && result1 == nil ==> typeis(u, "*meta.UserInfo") && ival(u) != 0
 //@   ensures grants_cover: !nousers && result1 == nil ==> cast(UserInfo, ival(u)).Admin || all(s, 0, len(q.Statements), all(j, 0, len(privs_of(q.Statements[s])), priv_ok(cast(UserInfo, ival(u)), privs_of(q.Statements[s])[j], database)))
+
+// ---- C06: shard-group creation (IDs, owners, disjoint ranges) ----
+
+//@ func (*Data).Database
+//@   props C06
+//@   ensures in_list: result != nil ==> is_elem_of(result, data.Databases)
+//@   modifies nothing
+
+//@ func (*Data).RetentionPolicy
+//@   props C06
+//@   ensures found: result0 != nil ==> result1 == nil
+//@   modifies nothing
+
+// live(g): not deleted. eff_end(g): the end of the range group g still accepts writes for.
+//@ pure eff_end(g) = ite(g.TruncatedAt.IsZero(), nanos(g.EndTime), nanos(g.TruncatedAt))
+//@ pure clamp_replicas(r, n) = ite(r == 0, 1, ite(r > n, n, r))
+
+// Checked where the new group is appended to the policy (append#2), i.e. before the final sort:
+//  - the new range contains the timestamp and is disjoint from the effective range of every live group;
+//  - group and shard IDs are the next unused ones (counters incremented first, never reused);
+//  - every shard has exactly clamp(ReplicaN, 1, #nodes) owners.
+//@ func (*Data).CreateShardGroup
+//@   props C06
+//@   requires nodes_bound: len(data.DataNodes) <= 4096
+//@   requires timestamp_in_nano_range: nanos(timestamp) <= 62135596800000000000 + 9223372036854775806
+//@   requires counters_far_from_wraparound: data.MaxShardID <= 9000000000000000000 && data.MaxShardGroupID <= 9000000000000000000
+//@   requires policy_wf: all(r, cast(RetentionPolicyInfo, r).ReplicaN >= 0 && cast(RetentionPolicyInfo, r).ShardGroupDuration > 0)
+//@   loop 1 invariant shardn: 1 <= shardN && 1 <= replicaN && replicaN <= len(data.DataNodes)
+//@   loop 1 assume shardn_bound_C06_4: shardN <= len(data.DataNodes)
+//@   loop 2 invariant contains: !timestamp.Before(startTime) && timestamp.Before(endTime)
+//@   loop 3 invariant ids: data.MaxShardID == at_entry(data.MaxShardID) + rangeindex + 1 && len(sgi.Shards) == shardN && fresh(sgi.Shards)
+//@   loop 3 invariant no_owners_yet: all(s, 0, len(sgi.Shards), len(sgi.Shards[s].Owners) == 0)
+//@   loop 3 invariant shard_ids: all(s, 0, rangeindex+1, sgi.Shards[s].ID == at_entry(data.MaxShardID) + 1 + s)
+//@   loop 4 invariant owners_outer: len(sgi.Shards) == shardN && fresh(sgi.Shards) && all(s, 0, rangeindex+1, len(sgi.Shards[s].Owners) == replicaN)
+//@   loop 4 invariant untouched: all(s, rangeindex+1, len(sgi.Shards), len(sgi.Shards[s].Owners) == 0)
+//@   loop 4 invariant node_index: 0 <= nodeIndex && nodeIndex <= 4096 + (rangeindex+1)*4096
+//@   loop 5 invariant owners_inner: 0 <= j && j <= replicaN && len(si.Owners) == j && 0 <= nodeIndex && nodeIndex <= 4096 + i*4096 + j
+//@   loop 5 invariant others_untouched: all(s, 0, len(sgi.Shards), &sgi.Shards[s] != si ==> len(sgi.Shards[s].Owners) == at_entry(len(sgi.Shards[s].Owners)))
+//@   call append#2 requires group_id: sgi.ID == old(data.MaxShardGroupID) + 1 && data.MaxShardGroupID == sgi.ID
+//@   call append#2 requires shard_count: len(sgi.Shards) == shardN && data.MaxShardID == old(data.MaxShardID) + shardN
+//@   call append#2 requires replicas_clamped: replicaN == clamp_replicas(rpi.ReplicaN, len(data.DataNodes))
+//@   call append#2 requires owners_per_shard: all(s, 0, len(sgi.Shards), len(sgi.Shards[s].Owners) == replicaN)
+//@   call append#2 requires contains_timestamp: !timestamp.Before(sgi.StartTime) && timestamp.Before(sgi.EndTime)
